@@ -512,6 +512,7 @@ def _diff_mechanism(diff):
 def _msg_skeleton(msg, classes, modname):
   import re
   m = msg.split("\n")[0]
+  m = m.replace(modname + ".", "<M>.").replace("'" + modname + "'", "'<M>'")
   m = re.sub(r"\b[a-zA-Z_]+\d+\b", "<id>", m)
   return m[:100]
 
